@@ -98,7 +98,14 @@ Definition run_cases (g gfh : Z) (cs : list ccase) : list (Z * Z * Z * Z) :=
             [sk] durable steps of [scop], torn [storn]) reopened WITH the
             assertion [sassert], which must not trigger: the result must be
             what the plain constructor yields (C08_assert_no_reset_is_plain_open),
-            i.e. the state before or after [scop].
+            i.e. the state before or after [scop];
+   skind 5 / 6: NOT a process crash: the last [sk] BYTES of the block (5) /
+            filter (6) file are lost after [sprefix], the index untouched
+            (power loss).  Failing to open is accepted (fail closed, what the
+            model's [recover] does); a store that opens must be the log cut
+            back to what the file still holds - in particular no lost header
+            may be found by hash any more, also after different headers were
+            appended at the lost heights.
    The image is reopened with the assertion ([swith]) or without; [sopened]
    says whether the real constructors succeeded; [spost] is the dump and the
    follow-up append on the reopened stores. *)
@@ -133,7 +140,7 @@ Fixpoint judge (als : list alog) (i0 : Z) (tr : list (op * obs)) : option Z :=
    reopened with an assertion that must not trigger *)
 Definition stag (c : scase) : Z :=
   if skind c =? 0 then 41 else if skind c =? 1 then 42 else if skind c =? 3 then 44
-  else if skind c =? 4 then 45 else 43.
+  else if skind c =? 4 then 45 else if (skind c =? 5) || (skind c =? 6) then 46 else 43.
 
 Definition sverdict (g gfh : Z) (c : scase) : list (Z * Z * Z * Z) :=
   match init g gfh with
@@ -150,6 +157,8 @@ Definition sverdict (g gfh : Z) (c : scase) : list (Z * Z * Z * Z) :=
          if skind c =? 0 then first_start_crash g gfh (sfilter c) k (storn c)
          else if skind c =? 3 then first_start_crash_cs g gfh k (storn c)
          else if skind c =? 4 then crash_state s (steps_of s (scop c)) k (storn c)
+         else if skind c =? 5 then lose_block_tail s (sk c)
+         else if skind c =? 6 then lose_filter_tail s (sk c)
          else if skind c =? 1 then
            (if assertion_resets (ff s) (sassert c) then reset_crash g gfh s k (storn c) else None)
          else (if assertion_resets (ff s) (sassert c) then None else Some s) in
@@ -181,6 +190,10 @@ Definition sverdict (g gfh : Z) (c : scase) : list (Z * Z * Z * Z) :=
       let allowed :=
         if skind c =? 1 then after :: (if (sk c =? 0) && negb (swith c) then [a] else [])
         else if skind c =? 4 then [a; fst (astep a (scop c))]
+        else if skind c =? 5 then
+          [{| bl := take (zn ((alen (bl a) * BSZ - sk c) / BSZ)) (bl a); fl := fl a |}]
+        else if skind c =? 6 then
+          [{| bl := bl a; fl := take (zn ((alen (fl a) * FSZ - sk c) / FSZ)) (fl a) |}]
         else [a] in
       if (skind c =? 4) && negb (wf_opb a (scop c)) then [] else
       if sopened c then
@@ -188,6 +201,7 @@ Definition sverdict (g gfh : Z) (c : scase) : list (Z * Z * Z * Z) :=
         | Some i => [(sid c, 2, i, stag c)]
         | None => []
         end
+      else if (skind c =? 5) || (skind c =? 6) then []   (* fail closed *)
       else [(sid c, 2, np, stag c)]
     end
   end.
